@@ -89,6 +89,9 @@ HRetSome(h, t, id) ==
            \cup (IF id = 0 /\ h.started = {} THEN {<<"C18", "is-set-true-before-any-set">>} ELSE {})
   IN [Flag(h, v) EXCEPT !.seenId = IF id # 0 THEN id ELSE @, !.someRet = TRUE, !.sawSome[t] = TRUE]
 
+\* the call unwound
+HRetPanic(h, t) == Flag(h, {<<"C18", "holder-call-panicked">>, <<"C20", "panic-in-global-holder">>})
+
 \* get returned None / is_set returned FALSE
 HRetNone(h, t) ==
   LET v == (IF h.sawSome[t] THEN {<<"C18", "unset-reported-after-this-thread-had-seen-the-value">>} ELSE {})
